@@ -52,6 +52,7 @@ def classify(req, model):
 
 
 _seen = {}
+_req_of = {}          # (key) -> the request that first produced it, for two-request replays
 
 
 def oracle(req, impl, build):
@@ -73,21 +74,24 @@ def oracle(req, impl, build):
         rounds = re.search(r" n=(\d+)", req).group(1)
         key = (build, kind, rounds, ",".join(st.split(",")[:8]))
         other = _seen.setdefault(key, seed)
+        _req_of.setdefault(key, req)
         if other != seed:
-            return "seeds %s and %s give the same ChaCha%s key" % (other, seed, rounds)
+            return {"oracle": "seeds %s and %s give the same ChaCha%s key" % (other, seed, rounds), "requests": [_req_of[key], req]}
     if kind == "xoshiro" and "via=seeded" in req and req.endswith("ops=u64,u64,u32"):
         # urandom::seeded returns an opaque generator: its state cannot be read, its stream can. Two seeds with the same first 160 bits of
         # output have the same stream (the generator is deterministic in its state; a chance collision has probability 2^-160)
         outs = " ".join(t for t in impl.split() if not t.startswith("st:"))
         key = (build, "seeded-stream", outs)
         other = _seen.setdefault(key, seed)
+        _req_of.setdefault(key, req)
         if other != seed:
-            return "urandom::seeded(%s) and urandom::seeded(%s) produce the same stream (%s ...)" % (other, seed, outs[:60])
+            return {"oracle": "urandom::seeded(%s) and urandom::seeded(%s) produce the same stream (%s ...)" % (other, seed, outs[:60]), "requests": [_req_of[key], req]}
     if kind in ("xoshiro", "splitmix", "wyrand") and req.endswith("ops="):
         key = (build, kind, st)
         other = _seen.setdefault(key, seed)
+        _req_of.setdefault(key, req)
         if other != seed:
-            return "seeds %s and %s give the same %s state" % (other, seed, kind)
+            return {"oracle": "seeds %s and %s give the same %s state" % (other, seed, kind), "requests": [_req_of[key], req]}
     return None
 
 
